@@ -46,17 +46,13 @@ try:
     r = sh('cd %s && timeout 900 /venv/bin/python -m pytest -q -p no:cacheprovider --timeout=900 --continue-on-collection-errors 2>&1 | tail -1' % wt)
     res['tests'] = r.stdout.strip()
     res['ran'].append('patched worktree: baseline pytest -> %s' % r.stdout.strip())
-    # run the checks against /repo with the patch applied
-    r = sh('git -C /repo apply %s/patch.diff' % d)
-    try:
-        for tier in ('quick', 'thorough'):
-            r = sh('cd /verif && VERIF_EVIDENCE_DIR=%s_ev timeout 900 ./check %s --tier %s' % (wt, pid, tier))
-            res['check_%s_rc' % tier] = r.returncode
-            res['check_%s_violations' % tier] = [l.strip() for l in r.stdout.splitlines() if l.startswith('  ') and ' at ' in l and 'rule ' not in l[:7]][:6]
-            res['ran'].append('git -C /repo apply patch.diff; ./check %s --tier %s -> exit %d' % (pid, tier, r.returncode))
-    finally:
-        sh('git -C /repo checkout -- .')
-        res['ran'].append('git -C /repo checkout -- .')
+    # run the checks against the patched scratch worktree (VERIF_REPO), so that /repo stays untouched while other work goes on;
+    # tools/seed_recheck.py re-runs every kept seed with the patch applied to /repo itself
+    for tier in ('quick',):
+        r = sh('cd /verif && VERIF_REPO=%s VERIF_EVIDENCE_DIR=%s_ev timeout 900 ./check %s --tier %s' % (wt, wt, pid, tier))
+        res['check_%s_rc' % tier] = r.returncode
+        res['check_%s_violations' % tier] = [l.strip() for l in r.stdout.splitlines() if l.startswith('  ') and ' at ' in l and 'rule ' not in l[:7]][:6]
+        res['ran'].append('patched worktree: VERIF_REPO=<worktree> ./check %s --tier %s -> exit %d' % (pid, tier, r.returncode))
 finally:
     sh('git -C /repo worktree remove --force %s' % wt)
     shutil.rmtree(ext, ignore_errors=True)
